@@ -550,6 +550,12 @@ def assemble_walk(repo: Repo, prop: str = PROP, rule: str = "C06.ASSEMBLE-WALK")
                 for k, a in ev_log:
                     if k == kind and [repr(x) for x in a[0]] != [f"V:{a[1]._name}:{j}" for j in range(8)]:
                         problems.append(f"{kind}.add for {a[1]._name} receives the vertices of another operation")
+        # assemble() reads the model: the entity's own list of operations is as it was (what was deleted stays addressable and
+        # the core / shell slices of a shape keep their meaning)
+        if shape.get("operations") != ops[1:5] or any(a is not b for a, b in zip(shape.get("operations"), ops[1:5])):
+            problems.append(f"assemble() changed the shape's own operations list to {[o._name for o in shape.get('operations')]}")
+        if mesh.get("depot") != depot:
+            problems.append("assemble() changed the mesh's depot")
         geos = [g for k, g in ev_log if k == "geometry"]
         if geos != [{"geo": ["x"]}]:
             problems.append(f"geometries added: {geos}; expected the shape's geometry once")
